@@ -281,6 +281,11 @@ def replay_prop(prop, path, seed):
     dec = r.get('decisions') or []
     steps = r['script']['steps'] if r['script']['start_depth'] == 0 else []
     for B in steps:
+        if any(len(run.combi.refinement.get_refinement_container_for_dim(d).get_objects()) != len(B[d]) for d in range(cfg['D'])):
+            # the recorded benefit script no longer fits the refinement containers: this tree takes another path than the one the case was recorded
+            # on (its earlier steps refined other intervals); the steps that could be applied are judged, the quick tier decides the rest
+            print('replay: the recorded history diverges from this tree after %d steps (different intervals were refined)' % (len(evs) - 1))
+            break
         evs.append(P.do_step(run, B))
     tr = {'cfg': P.trace_cfg(run, cfg['lmax']), 'fresh': True, 'events': [P.strip(e) for e in evs], 'origin': 'replay',
           '_script': r['script'], '_detail': [e.get('_detail') for e in evs], '_decisions': dec}
